@@ -31,6 +31,10 @@ struct TState {
 struct Shared {
     m: Mutex<Vec<TState>>,
     cv: Condvar,
+    /// per thread: true only while the thread executes code under test (not while it is inside the
+    /// scheduler's own gate/bookkeeping code, where it may sleep on the scheduler's own mutex/condvar).
+    /// A thread can only be classified as *blocked* while this is true.
+    in_user_code: Vec<std::sync::atomic::AtomicBool>,
 }
 
 thread_local! {
@@ -46,6 +50,8 @@ pub fn pause(label: &str) {
 }
 
 fn gate(sh: &Arc<Shared>, me: usize, label: &str) {
+    use std::sync::atomic::Ordering::SeqCst;
+    sh.in_user_code[me].store(false, SeqCst);
     let mut g = sh.m.lock().unwrap();
     g[me].phase = Phase::AtGate(label.to_string());
     g[me].go = false;
@@ -53,6 +59,8 @@ fn gate(sh: &Arc<Shared>, me: usize, label: &str) {
     while !g[me].go {
         g = sh.cv.wait(g).unwrap();
     }
+    drop(g);
+    sh.in_user_code[me].store(true, SeqCst);
 }
 
 fn os_tid() -> Option<u32> {
@@ -112,6 +120,7 @@ pub fn run(bodies: Vec<Body>, prefix: &[usize]) -> Execution {
     let sh = Arc::new(Shared {
         m: Mutex::new((0..n).map(|_| TState { phase: Phase::Running, go: false, tid: None }).collect()),
         cv: Condvar::new(),
+        in_user_code: (0..n).map(|_| std::sync::atomic::AtomicBool::new(false)).collect(),
     });
     for (i, body) in bodies.into_iter().enumerate() {
         let sh2 = sh.clone();
@@ -125,6 +134,7 @@ pub fn run(bodies: Vec<Body>, prefix: &[usize]) -> Execution {
                 }
                 gate(&sh2, i, "start");
                 let r = crate::quiet_catch(body);
+                sh2.in_user_code[i].store(false, std::sync::atomic::Ordering::SeqCst);
                 let mut g = sh2.m.lock().unwrap();
                 g[i].phase = match r {
                     Ok(()) => Phase::Done,
@@ -151,6 +161,18 @@ pub fn run(bodies: Vec<Body>, prefix: &[usize]) -> Execution {
         if enabled.is_empty() {
             exec.blocked = (0..n).filter(|&i| g[i].phase == Phase::Blocked).collect();
             exec.deadlock = !exec.blocked.is_empty();
+            if std::env::var_os("VERIF_THRSCHED_DEBUG").is_some() && exec.deadlock {
+                for i in 0..n {
+                    let tid = g[i].tid.unwrap_or(0);
+                    eprintln!(
+                        "thrsched debug: thread {i} phase={:?} in_user={} stat={:?} syscall={:?}",
+                        g[i].phase,
+                        sh.in_user_code[i].load(std::sync::atomic::Ordering::SeqCst),
+                        std::fs::read_to_string(format!("/proc/self/task/{tid}/stat")).unwrap_or_default().split(')').nth(1).map(|x| x.chars().take(4).collect::<String>()),
+                        std::fs::read_to_string(format!("/proc/self/task/{tid}/syscall")).unwrap_or_default().trim().to_string()
+                    );
+                }
+            }
             for i in 0..n {
                 if let Phase::Panicked(m) = &g[i].phase {
                     exec.panics.push((i, m.clone()));
@@ -211,48 +233,67 @@ fn release_all(sh: &Arc<Shared>) {
 }
 
 /// Wait until no thread is in phase Running (each is at a gate, done, or confirmed blocked).
-/// A Blocked thread that wakes up is noticed because it changes its own phase at the next gate / end;
-/// to keep the window sound we also re-examine Blocked threads: one that is no longer asleep in a
-/// futex goes back to Running.
+///
+/// /proc is sampled *without* holding the scheduler mutex (a thread entering a gate must never have
+/// to sleep on it for long), and a thread is only ever considered blocked while it is executing code
+/// under test (`in_user_code`). A Blocked thread that is observed awake again goes back to Running.
 fn wait_quiescent(sh: &Arc<Shared>) {
-    let mut asleep_count: Vec<u32> = Vec::new();
+    use std::sync::atomic::Ordering::SeqCst;
+    let n = sh.in_user_code.len();
+    let mut asleep_count: Vec<u32> = vec![0; n];
     loop {
-        let mut g = sh.m.lock().unwrap();
-        if asleep_count.len() != g.len() {
-            asleep_count = vec![0; g.len()];
-        }
-        // re-examine blocked threads
-        for i in 0..g.len() {
-            if g[i].phase == Phase::Blocked {
-                if let Some(tid) = g[i].tid {
-                    if !asleep_in_futex(tid) {
-                        g[i].phase = Phase::Running;
-                        asleep_count[i] = 0;
-                    }
-                }
+        // snapshot
+        let (phases, tids): (Vec<Phase>, Vec<Option<u32>>) = {
+            let g = sh.m.lock().unwrap();
+            (g.iter().map(|t| t.phase.clone()).collect(), g.iter().map(|t| t.tid).collect())
+        };
+        // sample without the lock
+        let mut asleep = vec![false; n];
+        for i in 0..n {
+            if matches!(phases[i], Phase::Running | Phase::Blocked) {
+                asleep[i] = sh.in_user_code[i].load(SeqCst) && tids[i].map(asleep_in_futex).unwrap_or(false) && sh.in_user_code[i].load(SeqCst);
             }
         }
-        let running: Vec<usize> = (0..g.len()).filter(|&i| g[i].phase == Phase::Running).collect();
-        if running.is_empty() {
-            return;
-        }
-        let (g2, _) = sh.cv.wait_timeout(g, Duration::from_micros(300)).unwrap();
-        g = g2;
-        for &i in &running {
-            if g[i].phase != Phase::Running {
+        let mut g = sh.m.lock().unwrap();
+        let mut any_running = false;
+        for i in 0..n {
+            // only act if the phase did not change while we were sampling
+            if g[i].phase != phases[i] {
+                // a thread moved while we were sampling (it may have released a lock and woken others):
+                // the samples are stale, take another round before concluding anything
+                any_running = true;
+                asleep_count[i] = 0;
                 continue;
             }
-            match g[i].tid {
-                Some(tid) if asleep_in_futex(tid) => {
-                    asleep_count[i] += 1;
-                    // 4 consecutive sleepy samples (>= ~1 ms) while not at a gate: blocked on a lock of the code under test
-                    if asleep_count[i] >= 4 {
-                        g[i].phase = Phase::Blocked;
+            match g[i].phase {
+                Phase::Blocked => {
+                    if !asleep[i] {
+                        g[i].phase = Phase::Running;
+                        asleep_count[i] = 0;
+                        any_running = true;
                     }
                 }
-                _ => asleep_count[i] = 0,
+                Phase::Running => {
+                    if asleep[i] {
+                        asleep_count[i] += 1;
+                        // consecutive sleepy samples (>= ~2 ms) in code under test: blocked on one of its locks
+                        if asleep_count[i] >= 6 {
+                            g[i].phase = Phase::Blocked;
+                        } else {
+                            any_running = true;
+                        }
+                    } else {
+                        asleep_count[i] = 0;
+                        any_running = true;
+                    }
+                }
+                _ => {}
             }
         }
+        if !any_running {
+            return;
+        }
+        let _ = sh.cv.wait_timeout(g, Duration::from_micros(300)).unwrap();
     }
 }
 
